@@ -237,6 +237,7 @@ type abiCtx struct {
 
 // ABI is the fake application: deterministic in the block, so that every node computes the same result.
 type ABI struct {
+	failRevert int // scripted Revert failures left (guarded by App.mu)
 	App     *App
 	Genesis *NextParams
 	mu      sync.Mutex
@@ -414,10 +415,22 @@ func (a *ABI) Commit(req *labi.CommitRequest) (*labi.CommitResponse, error) {
 	return &labi.CommitResponse{StateRoot: root}, nil
 }
 
+// FailNextRevert makes the next n Revert calls of this application fail without reverting anything (an application that
+// refuses or is unable to revert: disk error, shutting down).
+func (a *ABI) FailNextRevert(n int) {
+	a.App.mu.Lock()
+	a.failRevert = n
+	a.App.mu.Unlock()
+}
+
 func (a *ABI) Revert(req *labi.RevertRequest) (*labi.RevertResponse, error) {
 	a.call("Revert")
 	a.App.mu.Lock()
 	defer a.App.mu.Unlock()
+	if a.failRevert > 0 {
+		a.failRevert--
+		return nil, errors.New("scripted failure: revert")
+	}
 	st := a.App.Stack
 	if len(st) < 2 {
 		return nil, errors.New("nothing to revert")
